@@ -11,6 +11,7 @@ from .core import Finding, Result, finding, norm_construct
 from .facts import describe_facts, prove_ge0
 from .model import FuncInfo, Repo
 from .poly import A, C, Frac, ONE, ZERO
+from .structure import canon_test
 
 # reviewed uses of len(candles) that do not make the answer depend on later candles
 # (function name, normalised enclosing test) -> reason
@@ -19,8 +20,8 @@ FROZEN_LEN_GUARDS = {
     ("falling", "len(candles) < 2"): "same as rising",
     ("mean_rising", "len(candles) < 2"): "same as rising",
     ("mean_falling", "len(candles) < 2"): "same as rising",
-    ("highest", "not len(candles)"): "empty-list guard; absindex already returned None for an empty list",
-    ("lowest", "not len(candles)"): "same as highest",
+    ("highest", "len(candles) < 1"): "empty-list guard; absindex already returned None for an empty list",
+    ("lowest", "len(candles) < 1"): "same as highest",
 }
 INDEX_HELPERS = ("absindex", "valid_index", "validate_index")
 
@@ -152,7 +153,7 @@ def check_function(prop: str, res: Result, repo: Repo, fi: FuncInfo, want=("R-NO
             top = s.node
             while id(top) in parents and isinstance(parents[id(top)], (ast.Compare, ast.UnaryOp, ast.BoolOp)) and not isinstance(parents[id(top)], ast.BoolOp):
                 top = parents[id(top)]
-            key = (fi.name, norm_construct(top))
+            key = (fi.name, canon_test(top))
             if key in FROZEN_LEN_GUARDS:
                 res.ok("R-CAUSAL", {"site": f"{_where(fi, s)} {key[1]}", "why": "frozen exception: " + FROZEN_LEN_GUARDS[key]}, nontrivial=str(key))
             else:
